@@ -74,8 +74,8 @@ def tag_regex_info(pf, loop, rule):
     # key/value variables: `key, val = m.groups()` or findall(...)[0] assignments
     key_var = val_var = None
     for st in walk_stmts(loop.body):
-        if isinstance(st, ast.Assign) and isinstance(st.targets[0], ast.Tuple) and len(st.targets[0].elts) == 2 and isinstance(st.value, ast.Call) and isinstance(st.value.func, ast.Attribute) and st.value.func.attr == "groups":
-            key_var, val_var = [norm(e) for e in st.targets[0].elts]
+        if isinstance(st, ast.Assign) and isinstance(st.targets[0], ast.Tuple) and len(st.targets[0].elts) >= 2 and isinstance(st.value, ast.Call) and isinstance(st.value.func, ast.Attribute) and st.value.func.attr == "groups":
+            key_var, val_var = norm(st.targets[0].elts[0]), norm(st.targets[0].elts[-1])
             info["groups_stmt"] = st
     if key_var is None:
         # findall idiom: pattern = re.findall(r"(KEY)...", k)[0] ; val = re.findall(r"...(VAL)", k)[0]
